@@ -27,6 +27,8 @@ def step (toks : List String) : String :=
   | "generic" :: _ => "same"
   | "temper" :: _ => "same"
   | "temper-grow" :: _ => "same"
+  | "ising-nd" :: _ => "same"
+  | "ising-nd-fixed" :: _ => "same"
   | _ => "bad-op"
 
 def main : IO Unit := run step
